@@ -6,7 +6,7 @@ CONSTANT HapLen = 3
 CONSTANT MaxAlt = 2
 CONSTANT Ploidies <- QuickPloidies
 CONSTANT GTOrdered = FALSE
-CONSTANT Modes <- AllModes
+CONSTANT Modes <- QuickModes
 INVARIANT TypeOK
 INVARIANT LinesAreProjections
 INVARIANT OneLinePerSite
